@@ -58,6 +58,8 @@ pub mod futures_core {
     pub uninterp spec fn w_yielded<S: Stream>(v: S::Item) -> bool;
     /// the stream has reported its end (Ready(None))
     pub uninterp spec fn w_stream_end<S: Stream>() -> bool;
+    /// the value (an item, or the final None) has been handed to the source's callback
+    pub uninterp spec fn w_delivered<S: Stream>(e: Option<S::Item>) -> bool;
     /// the stream has said Pending (its waker is registered)
     pub uninterp spec fn w_stream_pending<S: Stream>() -> bool;
     /// ASSUMED: `Pin::new(s).poll_next(cx)` of an Unpin stream; nothing but the witness of what it returned
@@ -77,13 +79,15 @@ pub mod async_task {
     impl<M> Runnable<M> {
         #[verifier::external_body] pub fn metadata(&self) -> (r: &M) { unimplemented!() }
         /// ASSUMED: polls the task once (user code); no effect contracts can see
-        #[verifier::external_body] pub fn run(self) -> (r: bool) { unimplemented!() }
+        #[verifier::external_body] pub fn run(self) -> (r: bool) ensures w_ran(self), { unimplemented!() }
         /// the waker of the task this runnable belongs to
         pub uninterp spec fn spec_waker(&self) -> std::task::Waker;
         #[verifier::external_body] pub fn waker(&self) -> (r: std::task::Waker) ensures r == self.spec_waker(), { unimplemented!() }
         /// ASSUMED: hands the runnable to the schedule function it was spawned with (here: futures::Sender::send); witness only
         #[verifier::external_body] pub fn schedule(self) ensures w_scheduled(self), { unimplemented!() }
     }
+    /// `run()` has been called on this runnable (its task has been polled)
+    pub uninterp spec fn w_ran<M>(r: Runnable<M>) -> bool;
     /// `schedule()` has been called on this runnable
     pub uninterp spec fn w_scheduled<M>(r: Runnable<M>) -> bool;
     #[verifier::external_body] #[verifier::reject_recursive_types(T)] #[verifier::reject_recursive_types(M)] #[derive(Debug)]
